@@ -490,6 +490,8 @@ def do_check(pid, tier, seed):
                             o.write(json.dumps({"ev": "rs", "slot": 1, "cols": cols, "rows": rows, "consumed": True}) + "\n")
                         else:
                             o.write(json.dumps({"ev": "fs", "slot": 1, "s": [ord(ch) for ch in x], "consumed": True}) + "\n")
+                    # the read-only operations in the state reached (a panic there is C01's)
+                    o.write('{"ev":"dump","slot":1}\n{"ev":"q","slot":1}\n')
 
                 rp = os.path.join(wd, "tlcreplay-%s.replay.ndjson" % m["cfg"])
                 def chosen_mismatches():
